@@ -6,8 +6,8 @@
    the semantics and the io structure of the closed form, and that the feedback choice of the code is always legal
    (back edges of ANY node order that lie on a cycle).  `C18_model_is_closed_form` links the API-level model to the closed form
    (graph equality whenever the model returns), so `C18_acyclic_unroll_partial` is about the model itself.
-   Not proved, decided per case by Run_C18.agree/holds: `C18_total_full` (the model returns inside the guards) and
-   lint-cleanliness of the result. *)
+   The closed form is lint-clean (`C18_result_lint_clean`).
+   Not proved, decided per case by Run_C18.agree/holds: `C18_total_full` (the model returns inside the guards). *)
 From stdpp Require Import strings gmap sets fin_sets.
 From CG Require Import Base.Oracle Model.AcyclicUnroll Model.TopoEval Proofs.AcyclicUnrollProofs Proofs.AcyclicUnrollLink.
 Open Scope string_scope.
@@ -96,14 +96,19 @@ Proof. exact acyclic_unroll_spec. Qed.
 Print Assumptions C18_acyclic_unroll_partial.
 
 (* --- what is NOT proved (visible, decided per case by Run_C18): inside the guards the model does not raise
-       (every API check passes, the result passes lint and the acyclicity test). --- *)
+       (every API check passes and the executable acyclicity test accepts; lint does accept: C18_result_lint_clean). --- *)
 Definition C18_total_full : Prop := ∀ C F,
   lint_clean C → bb_free C → closed (c_g C) → startpoints (c_g C) = inputs (c_g C) → (∀ n, n ∉ fanin (c_g C) n) →
   names_ok (c_g C) F → NoDup F → (∀ f, f ∈ F → f ∈ dom (c_g C)) → cut_acyclic (c_g C) F →
   ∃ A, acyclic_unroll C F = Ok A.
-Definition C18_result_lint_clean_full : Prop := ∀ C F,
-  lint_clean C → closed (c_g C) → names_ok (c_g C) F → cut_acyclic (c_g C) F →
-  lint_clean {| c_name := "acyc_" ++ c_name C; c_g := unrolled (c_g C) F; c_bbs := ∅ |}.
+
+(* the closed form (hence, by the link, whatever the model returns) passes lint *)
+Theorem C18_result_lint_clean : ∀ C F nm,
+  lint_clean C → c_bbs C = ∅ → startpoints (c_g C) = inputs (c_g C) → (∀ f, f ∈ F → f ∈ dom (c_g C)) →
+  NoDup (unrolled_nodes (c_g C) F).*1 →
+  lint_clean {| c_name := nm; c_g := unrolled (c_g C) F; c_bbs := ∅ |}.
+Proof. exact unrolled_lint_clean. Qed.
+Print Assumptions C18_result_lint_clean.
 
 (* --- non-vacuity: a nested pair of cycles (g <-> h, h <-> k) with an input that is also an output --- *)
 Definition ex_c : circuit :=
